@@ -29,6 +29,7 @@ ASSUMPTIONS = ["the optional cfunits import is replaced by a stand-in module (it
                "paths are simple (no self-intersection) so that a point determines its path parameter"]
 EXHAUSTIVE = {"quick": False, "thorough": False}
 UNIT = 6       # quanta per path-lattice unit (a quarter of a 24-quanta cell side)
+HIGH_LATITUDE = ("cf1d", "shoc_standard", "ugrid")
 
 
 def _install_cfunits():
@@ -52,7 +53,8 @@ def cells_units(w) -> list:
             out.append([])
             continue
         xs = [p[0] for p in ring]; ys = [p[1] for p in ring]
-        out.append([min(xs) // UNIT, min(ys) // UNIT, max(xs) // UNIT, max(ys) // UNIT])
+        u = w.get("unit", UNIT)
+        out.append([min(xs) // u, min(ys) // u, max(xs) // u, max(ys) // u])
     return out
 
 
@@ -109,6 +111,14 @@ def cases(tier: str, seed: int) -> list[dict]:
     for conv in W.ALL_CONVS:
         for rep in range(1 if tier == "quick" else 3):
             w = make_world(conv, rng)
+            if rep == 0 and conv in HIGH_LATITUDE:
+                # the same model at 60 degrees south (a degree of longitude is half a degree of latitude in metres):
+                # a multiple of 24 quanta, so the path lattice stays aligned with the cells
+                # cells are made eight times larger (3 degrees) first: in this sandbox cartopy 0.25 / PROJ 9.8 put a point
+                # 25 km away from itself at that latitude (PlateCarree -> AzimuthalEquidistant), which scrambles the order
+                # of distances over anything shorter; metre distances are used for ORDER only
+                w = GW.shifted(GW.scaled(w, 8), 9600 - 9600 % 192, -3840)
+                w["unit"] = UNIT * 8
             cu = cells_units(w)
             rects = [c for c in cu if c]
             bbox = (min(c[0] for c in rects), min(c[1] for c in rects), max(c[2] for c in rects), max(c[3] for c in rects))
@@ -119,6 +129,9 @@ def cases(tier: str, seed: int) -> list[dict]:
                      [[x0 + 2, y0 + 2], [x0 + 6, y0 + 6], [x0 + 6, y0 + 2]],                 # diagonal then back: inside start
                      [[x0 - 5, y0 - 5], [x0 - 3, y0 - 5]],                                   # misses the model
                      [[x0 + 1, y0 + 2], [x0 + 3, y0 + 2], [x0 + 5, y0 + 4], [x0 + 3, y0 + 6], [x0 + 1, y0 + 6], [x0 + 1, y0 + 3]]]  # leaves and re-enters
+            # an L and a U shaped path: east-west legs next to north-south legs
+            fixed.append([[x0 + 1, y0 + 1], [x1 - 1, y0 + 1], [x1 - 1, y1 - 1]])
+            fixed.append([[x0 + 1, y1 - 1], [x0 + 1, y0 + 1], [x1 - 1, y0 + 1], [x1 - 1, y1 - 1]])
             for p in fixed:
                 ev.append({"a": "Transect", "path": p, "var": "temp"})
             for _ in range(6 if tier == "quick" else 30):
@@ -134,8 +147,8 @@ def nontrivial(case: dict) -> bool:
     return True
 
 
-def units_of(x) -> int:
-    v = float(x) / (UNIT * SCALE)
+def units_of(x, unit=UNIT) -> int:
+    v = float(x) / (unit * SCALE)
     r = round(v)
     return int(r) if abs(v - r) < 1e-6 else BADINT
 
@@ -156,13 +169,14 @@ def execute(case: dict) -> dict:
         e = dict(e)
 
         def run():
-            line = shapely.LineString([(x * UNIT * SCALE, y * UNIT * SCALE) for x, y in e["path"]])
+            u = w.get("unit", UNIT)
+            line = shapely.LineString([(x * u * SCALE, y * u * SCALE) for x, y in e["path"]])
             tr = Transect(ds, line, depth=depth_name)
             segs = []
             for s in tr.segments:
                 segs.append({"linear": as_int(s.linear_index), "native": native_index(w["conv"], s.index),
-                             "start": [units_of(s.start_point.x), units_of(s.start_point.y)],
-                             "stop": [units_of(s.end_point.x), units_of(s.end_point.y)],
+                             "start": [units_of(s.start_point.x, u), units_of(s.start_point.y, u)],
+                             "stop": [units_of(s.end_point.x, u), units_of(s.end_point.y, u)],
                              "d0": int(round(s.start_distance)), "d1": int(round(s.end_distance))})
             out = {"segments": segs}
             if e["var"]:
